@@ -309,13 +309,18 @@ fn decoy_platform(cat: u64, ex: u64, chunk: u64, plat: u64, dat: u64) -> Option<
     if d == plat { None } else { Some(d) }
 }
 
-/// `names`: [TargetInfo(decoy)], TargetInfo(plat), AddData, HeaderUpdate `.index`, HeaderUpdate `.index2`
+/// `names`: [TargetInfo(decoy)], TargetInfo(plat), AddData, HeaderUpdate `.index`, HeaderUpdate `.index2`,
+/// [TargetInfo(another platform)] — a TargetInfo acts on the commands behind it only, so the trailing
+/// one (one case in three) changes nothing
 fn naming_patch(cat: u64, ex: u64, chunk: u64, plat: u64, dat: u64) -> Vec<u8> {
     let mut parts = vec![];
     if let Some(d) = decoy_platform(cat, ex, chunk, plat, dat) {
         parts.push(NP::T(d));
     }
     parts.extend_from_slice(&[NP::T(plat), NP::A(dat), NP::H(0), NP::H(2)]);
+    if (cat + ex + 2 * chunk + dat) % 3 == 0 {
+        parts.push(NP::T((plat + 1 + (cat + chunk) % 4) % 5));
+    }
     naming_patch_of(cat, ex, chunk, &parts)
 }
 
